@@ -40,7 +40,7 @@ Lemma binary_facts : forall T, prec_tables_ok T = true -> forall op lv lf rt,
   slookup spec_binary op = Some (lv, lf, rt) ->
   plookup (t_binop T) op <= lv /\ lf <= plookup (t_left T) op /\ rt <= plookup (t_right T) op.
 Proof.
-  intros T HT op lv lf rt Hs. unfold prec_tables_ok in HT.
+  intros T HT op lv lf rt Hs. unfold prec_tables_ok in HT. apply andb_true_iff in HT; destruct HT as [HT _].
   apply andb_true_iff in HT; destruct HT as [HT _]. apply andb_true_iff in HT; destruct HT as [HT _].
   rewrite forallb_forall in HT. specialize (HT _ (slookup_In _ _ _ _ Hs)). unfold binary_ok in HT.
   repeat (apply andb_true_iff in HT; destruct HT as [HT ?]).
@@ -51,7 +51,7 @@ Lemma prefix_facts : forall T, prec_tables_ok T = true -> forall op lv ol,
   slookup spec_prefix op = Some (lv, ol) ->
   plookup (t_unop T) op <= lv /\ ol <= plookup (t_unary T) op.
 Proof.
-  intros T HT op lv ol Hs. unfold prec_tables_ok in HT.
+  intros T HT op lv ol Hs. unfold prec_tables_ok in HT. apply andb_true_iff in HT; destruct HT as [HT _].
   apply andb_true_iff in HT; destruct HT as [HT _]. apply andb_true_iff in HT; destruct HT as [_ HT].
   rewrite forallb_forall in HT. specialize (HT _ (slookup_In _ _ _ _ Hs)). unfold unary_ok in HT.
   repeat (apply andb_true_iff in HT; destruct HT as [HT ?]).
@@ -62,12 +62,37 @@ Lemma postfix_facts : forall T, prec_tables_ok T = true -> forall op lv ol,
   slookup spec_postfix op = Some (lv, ol) ->
   plookup (t_unop T) op <= lv /\ ol <= plookup (t_unary T) op.
 Proof.
-  intros T HT op lv ol Hs. unfold prec_tables_ok in HT.
+  intros T HT op lv ol Hs. unfold prec_tables_ok in HT. apply andb_true_iff in HT; destruct HT as [HT _].
   apply andb_true_iff in HT; destruct HT as [_ HT].
   rewrite forallb_forall in HT. specialize (HT _ (slookup_In _ _ _ _ Hs)). unfold unary_ok in HT.
   repeat (apply andb_true_iff in HT; destruct HT as [HT ?]).
   repeat match goal with H : Nat.leb _ _ = true |- _ => apply Nat.leb_le in H end. auto.
 Qed.
+
+(* the constants: the guard is at most the grammar level of the replacement *)
+Lemma const_facts : forall T, prec_tables_ok T = true -> forall k, const_guard T k <= const_level k.
+Proof.
+  intros T HT k. unfold prec_tables_ok in HT. apply andb_true_iff in HT; destruct HT as [_ HT].
+  unfold consts_ok in HT. rewrite forallb_forall in HT.
+  assert (Hin : In k all_consts) by (destruct k; unfold all_consts; simpl; auto).
+  specialize (HT k Hin). unfold const_ok in HT. apply andb_true_iff in HT; destruct HT as [_ HT].
+  apply Nat.leb_le in HT. exact HT.
+Qed.
+
+(* facts about the grammar alone: the replacement text derives the replacement tree at const_level, the tree is one a
+   conforming parser builds there, and const_level is the highest such level *)
+Lemma const_level_derives : forall k, D (const_level k) (const_tokens k) (const_expr k).
+Proof.
+  destruct k; unfold const_level, const_tokens, const_expr.
+  - eapply D_pre; [reflexivity|apply Nat.le_refl|apply D_atom].
+  - eapply D_pre; [reflexivity|apply Nat.le_refl|apply D_atom].
+  - apply (D_index_member 19 [TAtom "0"] [TAtom "0"]); [apply Nat.le_refl|apply D_atom|apply D_atom].
+  - apply (D_bin 12 "DivToken" 12 12 13 [TAtom "1"] [TAtom "0"]); [reflexivity|apply Nat.le_refl|apply D_atom|apply D_atom].
+Qed.
+Lemma const_level_wf : forall k, wf (const_level k) (const_expr k).
+Proof. destruct k; unfold const_level, const_expr; cbn [wf]; cbv [slookup spec_prefix spec_binary assign_ops map app String.eqb Ascii.eqb Bool.eqb]; auto. Qed.
+Lemma const_level_tight : forall k, ~ wf (S (const_level k)) (const_expr k).
+Proof. destruct k; unfold const_level, const_expr; cbn [wf]; cbv [slookup spec_prefix spec_binary assign_ops map app String.eqb Ascii.eqb Bool.eqb]; lia. Qed.
 
 (* a tree that is well-formed at some level is well-formed at every level up to the printer's own level for it *)
 Lemma wf_raise : forall T, prec_tables_ok T = true ->
@@ -87,6 +112,7 @@ Proof.
   - destruct chain_has_call; unfold OpCall, OpMember in Hle; destruct Hwf as (_ & ?); split; auto.
   - destruct Hwf as (Hwf & Hi). split; auto.
     destruct chain_has_call; unfold OpCall, OpMember in Hle; destruct Hwf as (_ & ?); split; auto.
+  - exact I.
 Qed.
 
 (* MAIN THEOREM *)
@@ -142,6 +168,10 @@ Proof.
       destruct (Nat.ltb p 18) eqn:E.
       * apply Nat.ltb_lt in E. specialize (IHe1 _ 17 Hx). simpl in IHe1. apply D_index_call; auto. lia.
       * specialize (IHe1 _ 19 Hx). simpl in IHe1. apply D_index_member; auto. lia.
+  - pose proof (const_facts T HT k) as Hg.
+    destruct (Nat.ltb_spec (const_guard T k) p) as [Hlt|Hge].
+    + apply D_group. apply (D_weaken (const_level k)); [lia|apply const_level_derives].
+    + apply (D_weaken (const_level k)); [lia|apply const_level_derives].
 Qed.
 
 (* whole expressions (statement level: printed at OpExpr) *)
@@ -165,16 +195,54 @@ Section Assoc.
   Proof. unfold or_v. destruct (truthy a) eqn:Ea; [rewrite Ea; reflexivity|reflexivity]. Qed.
 End Assoc.
 
-(* stripping is idempotent on its own output at the same level: printing the re-parsed tree drops nothing more *)
-Lemma expr_prec_strip : forall T e q, expr_prec T (strip T q e) = expr_prec T e.
+(* stripping is idempotent on its own output at the same level: printing the re-parsed tree drops nothing more.
+   With the constant replacements the re-parsed tree contains !0 / 0[0] / 1/0 where the source had an atom, so the level
+   of a stripped tree can be lower than that of the source tree (never higher), and the stability of the parentheses
+   written around a replacement needs the guard to be at least the printer's own level of the replacement tree. *)
+Lemma index_of_lt : forall s l n, index_of s l = Some n -> n < List.length l.
 Proof.
-  intros T e. induction e; intros q; simpl; auto.
-  destruct (Nat.leb q (expr_prec T e)); simpl; auto.
+  intros s l. induction l as [|x r IH]; intros n H; cbn [index_of] in H; [discriminate|].
+  destruct (String.eqb x s).
+  - inversion H. cbn [List.length]. lia.
+  - destruct (index_of s r) as [m|]; [|discriminate]. inversion H. cbn [List.length]. specialize (IH m eq_refl). lia.
+Qed.
+Lemma prec_of_name_le : forall s, prec_of_name s <= OpPrimary.
+Proof.
+  intros s. unfold prec_of_name. destruct (index_of s op_prec_names) as [n|] eqn:E; [|unfold OpPrimary; lia].
+  apply index_of_lt in E. unfold op_prec_names in E. cbn [List.length] in E. unfold OpPrimary. lia.
+Qed.
+Lemma plookup_le : forall m k, plookup m k <= OpPrimary.
+Proof.
+  induction m as [|[k' v] r IH]; intros k; cbn [plookup]; [unfold OpPrimary; lia|].
+  destruct (String.eqb k' k); [apply prec_of_name_le|apply IH].
 Qed.
 
-Theorem strip_print_stable : forall T e p, print T p (strip T p e) = print T p e.
+Lemma const_self_prec_eq : forall T k, expr_prec T (const_expr k) = const_self_prec T k.
+Proof. destruct k; reflexivity. Qed.
+Lemma print_const_expr : forall T k q, print T q (const_expr k) = const_tokens k.
+Proof. destruct k; reflexivity. Qed.
+
+Lemma expr_prec_strip : forall T e q, expr_prec T (strip T q e) <= expr_prec T e.
 Proof.
-  intros T e. induction e; intros p; simpl.
+  intros T e. induction e; intros q; cbn [strip expr_prec]; auto.
+  - destruct (Nat.leb q (expr_prec T e)); cbn [expr_prec]; auto.
+  - assert (H : expr_prec T (const_expr k) <= OpPrimary).
+    { rewrite const_self_prec_eq. destruct k; cbn [const_self_prec]; try apply plookup_le. unfold OpMember, OpPrimary; lia. }
+    destruct (Nat.ltb (const_guard T k) q); cbn [expr_prec]; exact H.
+Qed.
+
+Lemma consts_exact_facts : forall T, consts_exact T = true -> forall k, const_guard T k = expr_prec T (const_expr k).
+Proof.
+  intros T HT k. unfold consts_exact in HT. rewrite forallb_forall in HT.
+  assert (Hin : In k all_consts) by (destruct k; unfold all_consts; simpl; auto).
+  specialize (HT k Hin). apply Nat.eqb_eq in HT. rewrite const_self_prec_eq. exact HT.
+Qed.
+
+(* what stability needs of the tables: the printer's own level of each replacement tree is at most its guard *)
+Theorem strip_print_stable_le : forall T, (forall k, expr_prec T (const_expr k) <= const_guard T k) ->
+  forall e p, print T p (strip T p e) = print T p e.
+Proof.
+  intros T HT e. induction e; intros p; cbn [strip print].
   - reflexivity.
   - rewrite IHe1, IHe2. reflexivity.
   - rewrite IHe. reflexivity.
@@ -182,11 +250,34 @@ Proof.
   - rewrite IHe1, IHe2, IHe3. reflexivity.
   - destruct (Nat.leb p (expr_prec T e)) eqn:E.
     + apply IHe.
-    + simpl. rewrite expr_prec_strip, E, IHe. reflexivity.
+    + cbn [print]. apply Nat.leb_gt in E. pose proof (expr_prec_strip T e OpExpr) as Hs.
+      replace (Nat.leb p (expr_prec T (strip T OpExpr e))) with false by (symmetry; apply Nat.leb_gt; lia).
+      rewrite IHe. reflexivity.
   - rewrite IHe1, IHe2. reflexivity.
   - rewrite IHe. reflexivity.
   - rewrite IHe1, IHe2. reflexivity.
+  - destruct (Nat.ltb_spec (const_guard T k) p) as [Hlt|Hge].
+    + cbn [print]. specialize (HT k).
+      replace (Nat.leb p (expr_prec T (const_expr k))) with false by (symmetry; apply Nat.leb_gt; lia).
+      rewrite print_const_expr. reflexivity.
+    + apply print_const_expr.
 Qed.
+
+Theorem strip_print_stable : forall T, consts_exact T = true -> forall e p, print T p (strip T p e) = print T p e.
+Proof.
+  intros T HT. apply strip_print_stable_le. intros k. rewrite (consts_exact_facts T HT k). apply Nat.le_refl.
+Qed.
+
+(* the hypothesis is needed: with the guard of `true` one level below the printer's level of !0, the parentheses the
+   printer writes at p = OpUnary are dropped when its output is printed again (the re-printed text is still a correct
+   rendering — the first one was over-parenthesised — but it is not a fixed point) *)
+Example strip_print_unstable :
+  let T := {| t_unary := t_unary T_gen; t_left := t_left T_gen; t_right := t_right T_gen; t_unop := t_unop T_gen;
+              t_binop := t_binop T_gen; t_const := [("true", "OpExp"); ("false", "OpUnary"); ("undefined", "OpMember"); ("Infinity", "OpMul")] |} in
+  prec_tables_ok T = true /\ consts_exact T = false /\
+  print T OpUnary (EConst CTrue) = [TL; TOp "NotToken"; TAtom "0"; TR] /\
+  print T OpUnary (strip T OpUnary (EConst CTrue)) = [TOp "NotToken"; TAtom "0"].
+Proof. vm_compute. auto. Qed.
 
 (* non-vacuity: (a+b)*(c*d) keeps the first pair of parentheses and the second (right operand of * at the same level) *)
 Example print_example :
@@ -195,3 +286,16 @@ Example print_example :
   print T_gen 0 (EBin "AddToken" (EGroup (EBin "MulToken" (EAtom "a") (EAtom "b"))) (EAtom "c")) =
   [TAtom "a"; TOp "MulToken"; TAtom "b"; TOp "AddToken"; TAtom "c"].
 Proof. vm_compute. auto. Qed.
+
+(* the constants: -true keeps !0 bare, true**2 and true.x parenthesise it; undefined under a call *)
+Example print_const_example :
+  print T_gen 0 (EPre "NegToken" (EConst CTrue)) = [TOp "NegToken"; TOp "NotToken"; TAtom "0"] /\
+  print T_gen 0 (EBin "ExpToken" (EConst CTrue) (EAtom "2")) = [TL; TOp "NotToken"; TAtom "0"; TR; TOp "ExpToken"; TAtom "2"] /\
+  print T_gen 0 (EDot (EConst CFalse) "x" false) = [TL; TOp "NotToken"; TAtom "1"; TR; TDot; TAtom "x"] /\
+  print T_gen 0 (EBin "MulToken" (EAtom "a") (EConst CInfinity)) = [TAtom "a"; TOp "MulToken"; TL; TAtom "1"; TOp "DivToken"; TAtom "0"; TR] /\
+  print T_gen 0 (EBin "MulToken" (EConst CInfinity) (EAtom "a")) = [TAtom "1"; TOp "DivToken"; TAtom "0"; TOp "MulToken"; TAtom "a"] /\
+  print T_gen 0 (ECall (EConst CUndefined) (EAtom "a")) = [TAtom "0"; TLB; TAtom "0"; TRB; TL; TAtom "a"; TR].
+Proof. vm_compute. repeat split. Qed.
+
+Print Assumptions print_derives.
+Print Assumptions strip_print_stable.
